@@ -90,6 +90,10 @@ def _uniform_req(rng, equipment, src, dst, nodes=None, *, max_launch_dbm=5.0, f_
     if max_ch:
         sp['f_max'] = min(sp['f_max'], sp['f_min'] + sp['spacing'] * max_ch)
     sp['tx_power_dbm'] = min(sp['tx_power_dbm'], max_launch_dbm)
+    if rng.random() < 0.25 and all(float(sp[k]).is_integer() for k in ('f_min', 'f_max', 'spacing', 'baud_rate')):
+        # numbers written without decimal point or exponent in a JSON file arrive as integers
+        for k in ('f_min', 'f_max', 'spacing', 'baud_rate'):
+            sp[k] = int(sp[k])
     req = W.make_request(equipment, src, dst, nodes_list=nodes, loose_list=['STRICT'] * len(nodes) if nodes else None,
                          f_min=sp['f_min'], f_max=sp['f_max'], spacing=sp['spacing'], baud_rate=sp['baud_rate'],
                          roll_off=sp['roll_off'], tx_osnr=sp['tx_osnr'], tx_power=dbm2watt(sp['tx_power_dbm']),
@@ -147,6 +151,13 @@ def build_scenario(rng, flav, ctx, *, max_launch_dbm=5.0, n_jobs=None, span_kw=N
                'raman_params': {'flag': rng.random() < 0.5, 'result_spatial_resolution': 10e3,
                                 'solver_spatial_resolution': 100}}
         raman = sim['raman_params']['flag']
+        if rng.random() < 0.4:
+            # the channels to compute given as a list that leaves out the outermost channel(s): the others take values
+            # derived from the computed ones and must stay physical (NLI >= 0)
+            sim['nli_params'].pop('computed_number_of_channels')
+            sim['nli_params']['computed_channels'] = G.pick(rng, [[1, 2, 3], [2, 3], [1, 3], [2, 4]])
+            if rng.random() < 0.6:
+                nli_method = sim['nli_params']['method'] = 'ggn_approx'
         tk.update(n_sites=2, max_spans=2, extra_links=0)
         max_ch = 6
         b = W.build(rng, topo_kw=tk, span_kw=sk)
@@ -203,8 +214,25 @@ def build_scenario(rng, flav, ctx, *, max_launch_dbm=5.0, n_jobs=None, span_kw=N
                 req, spec = _uniform_req(rng, equipment, a, z, max_launch_dbm=max_launch_dbm,
                                          f_lo=G.pick(rng, [186.3e12, 191.3e12, 187e12]),
                                          f_hi=G.pick(rng, [196.1e12, 195e12] + ([199.6e12, 199.0e12] if b['tdesc'].get('three_bands') else [])))
-        elif flav == 'openroadm' or not use_carriers:
+        elif flav == 'openroadm' or (not use_carriers and not (sim and 'computed_channels' in sim.get('nli_params', {}))):
             req, spec = _uniform_req(rng, equipment, a, z, max_launch_dbm=max_launch_dbm, max_ch=max_ch)
+        elif sim and 'computed_channels' in sim.get('nli_params', {}):
+            # non-flat but moderate power differences (the interpolated NLI of a channel 25 dB weaker than its
+            # neighbours exceeds its power: outside what the approximation is for)
+            carriers = G.gen_carriers(rng, n_max=6, n_min=5, max_dbm=min(max_launch_dbm, 2.0), min_dbm=-1.0)
+            base = carriers[0]['tx_power_dbm'] if carriers else 0
+            # two groups of channels launched a few dB apart (two transponder generations); the step may sit between
+            # two computed channels
+            cut = max(sim['nli_params']['computed_channels'][:-1] or [2])
+            step = G.pick(rng, [0, 3.0, 6.0, -3.0])
+            for k, c in enumerate(carriers):
+                c['tx_power_dbm'] = round(base - (step if k >= cut else 0) + rng.uniform(-0.3, 0.3), 2)
+                c['delta_pdb'] = 0
+            if len(carriers) < 5:
+                ctx.skip('too-few-carriers-for-computed-channels')
+                continue
+            req = W.make_request(equipment, a, z, initial_spectrum=G.carriers_to_initial_spectrum(carriers))
+            spec = {'carriers': len(carriers), 'first': carriers[:3]}
         else:
             req, spec, _ = _carrier_req(rng, equipment, a, z, max_launch_dbm=max_launch_dbm,
                                         n_max=max_ch or 60, n_min=3)
